@@ -413,8 +413,13 @@ impl C12 {
                     extra.push(FileSpec { rel: "dlv/tests/a_tests.json".into(), bytes: tests_text(&cases), mtime_ns: 0 });
                     target = "@/dlv/tests/a_tests.json".to_string();
                 }
-                let argv = vec!["cfn-guard".to_string(), "test".into(), "-r".into(), format!("@/{}", scn.rules[0].0), "-t".into(), target, "-o".into(), "json".into(), "-a".into()];
-                out.push(Delivery { kind: format!("test-{}", if split { "split" } else { "perm" }), fmt: "json".into(), argv, stdin: None, dir_mode: (*r.pick(&["shuffle", "asc"])).to_string(), dir_seed: r.next(), extra, mtimes: BTreeMap::new() });
+                let plain = r.chance(1, 3);
+                let mut argv = vec!["cfn-guard".to_string(), "test".into(), "-r".into(), format!("@/{}", scn.rules[0].0), "-t".into(), target];
+                if !plain {
+                    argv.extend(["-o".to_string(), "json".into()]);
+                }
+                argv.push("-a".into());
+                out.push(Delivery { kind: format!("test-{}", if split { "split" } else { "perm" }), fmt: if plain { "plain".into() } else { "json".into() }, argv, stdin: None, dir_mode: (*r.pick(&["shuffle", "asc"])).to_string(), dir_seed: r.next(), extra, mtimes: BTreeMap::new() });
             }
         }
         out
@@ -484,9 +489,12 @@ impl C12 {
             w.write_file(&FileSpec { rel: "dlv/one/one_tests.json".into(), bytes: tests_text(std::slice::from_ref(c)), mtime_ns: 0 });
             let mut req = w.req();
             let argv: Vec<String> = ["cfn-guard", "test", "-r", &format!("@/{}", scn.rules[0].0), "-t", "@/dlv/one/one_tests.json", "-o", "json"].iter().map(|s| s.to_string()).collect();
-            req.steps = vec![Self::step(&argv, &None, &w.root)];
+            // the same case once more in the console format (its block of text, header line aside)
+            let argv_plain: Vec<String> = argv[..argv.len() - 2].to_vec();
+            req.steps = vec![Self::step(&argv, &None, &w.root), Self::step(&argv_plain, &None, &w.root)];
             let o = w.run(&req);
             rep.absorb_exec(&o);
+            let plain_block: String = o.steps.get(1).map(|s| String::from_utf8_lossy(&crate::c05::strip_ansi(&s.stdout)).into_owned()).map(|t| t.lines().skip_while(|l| !l.starts_with("Test Case #")).skip(1).collect::<Vec<_>>().join("\n").trim_end().to_string()).unwrap_or_default();
             match o.steps.first() {
                 Some(s) if o.died_in.is_none() => {
                     let class = Self::outcome(s);
@@ -497,6 +505,7 @@ impl C12 {
                     let mut rec = serde_json::Map::new();
                     rec.insert("case".into(), v);
                     rec.insert("class".into(), json!(class));
+                    rec.insert("plain".into(), json!(plain_block));
                     out.insert(c.name.clone().unwrap_or_default(), Value::Object(rec));
                 }
                 _ => {
@@ -548,6 +557,35 @@ impl C12 {
             let want = if any_mismatch { "exit:7" } else { "exit:0" };
             if class != want {
                 out.push(("exit".into(), format!("test run over all cases returned {class}, the one-case runs imply {want}")));
+            }
+            if d.fmt == "plain" {
+                // console format: one block per test case, the same text as the case alone
+                let text = String::from_utf8_lossy(&crate::c05::strip_ansi(&s.stdout)).into_owned();
+                let mut blocks: Vec<String> = Vec::new();
+                for l in text.lines() {
+                    if l.starts_with("Test Case #") {
+                        blocks.push(String::new());
+                    } else if let Some(b) = blocks.last_mut() {
+                        b.push_str(l);
+                        b.push('\n');
+                    }
+                }
+                let mut seen = 0;
+                for b in &blocks {
+                    let b = b.trim_end();
+                    let name = b.lines().next().and_then(|l| l.strip_prefix("Name: ")).unwrap_or("");
+                    if let Some(r) = trefs.0.get(name) {
+                        seen += 1;
+                        if r.get("plain").and_then(|p| p.as_str()) != Some(b) {
+                            out.push(("test-case-console-block".into(), format!("test case `{name}` prints differently inside the batch than alone")));
+                        }
+                    }
+                }
+                if seen != trefs.0.len() {
+                    out.push(("test-case-missing".into(), format!("{} of {} test cases printed", seen, trefs.0.len())));
+                }
+                rep.count("judged.test_console", 1);
+                return out;
             }
             let got = match serde_json::from_slice::<Value>(&s.stdout) {
                 Ok(v) => v,
